@@ -126,8 +126,13 @@ func childC19(args []string) {
 			c := corpus.At(i)
 			pid, msg, form = pidTokens[i%len(pidTokens)], c.Msg, c.Form
 			accepted = c.Accepted
+		} else if i < nValid+c19N17(tier) {
+			// the failed-login forms in both renderings ("... for invalid user X ...") with C17's names
+			c := c17Gen(seed, i-nValid)
+			pid, msg, form = pidTokens[i%len(pidTokens)], c.Msg, "c17:"+c.Form
+			out.add("c17_lines", 1)
 		} else {
-			hc := hostileCase(seed, i-nValid)
+			hc := hostileCase(seed, i-nValid-c19N17(tier))
 			pid, msg, form = hc.PID, hc.Msg, "hostile:"+hc.Class
 		}
 		out.begin(i, msg)
@@ -192,14 +197,22 @@ func childC19(args []string) {
 	}
 }
 
+func c19N17(tier string) int {
+	if tier == "thorough" {
+		return 300000
+	}
+	return 20000
+}
+
 func checkC19(r *vlib.Run) int {
 	nValid := c06Corpus(r.Tier, r.Seed).Len()
 	nHost := r.Pick(30000, 1500000)
 	if !r.Thorough() {
 		nValid = 120000
 	}
-	n := nValid + nHost
+	n := nValid + c19N17(r.Tier) + nHost
 	res := runChildren(r, "mon", "c19", n, (n+47)/48, 10*time.Minute)
+	r.Set("failed_login_lines_in_both_renderings", res.stats["c17_lines"])
 	r.Set("lines_with_event", res.stats["lines_with_event"])
 	r.Set("lines_without_keyword", res.stats["lines_without_keyword"])
 	r.Set("accepted_lines_with_cancelled_context", res.stats["accepted_lines_with_cancelled_context"])
@@ -207,7 +220,7 @@ func checkC19(r *vlib.Run) int {
 	r.Require(res.stats["lines"] == n, "children did not process every line")
 	r.Require(res.stats["lines_with_event"] > 1000 && res.stats["lines_without_keyword"] > 1000, "too few lines with event / without keyword")
 	r.Assumptions = []string{"counters are read with Gather() on a private registry before and after each line, single-threaded"}
-	return r.Finish(res.stats["lines"], res.distinct.Len(), "the C06 corpus (all forms) followed by the C11 hostile corpus; per line the remote_logins_total delta per (method,outcome) label; distinct = (label, form) pairs observed")
+	return r.Finish(res.stats["lines"], res.distinct.Len(), "the C06 corpus (all forms), the C17 corpus (failed-login forms in the plain and the 'invalid user' rendering, adversarial names) and the C11 hostile corpus; per line the remote_logins_total delta per (method,outcome) label; distinct = (label, form) pairs observed")
 }
 
 // ---------------- C17 ----------------
